@@ -1000,6 +1000,8 @@ func (p *Parser) parseFunc(async, expr bool) (funcDecl *FuncDecl) {
 	parent := p.enterScope(&funcDecl.Body.Scope, true)
 	prevAwait, prevYield, prevRetrn := p.await, p.yield, p.retrn
 	p.await, p.yield, p.retrn = funcDecl.Async, funcDecl.Generator, true
+	prevAssumeArrowFunc := p.assumeArrowFunc
+	p.assumeArrowFunc = false // the function may be part of a parenthesized expression that could be an arrow function head
 
 	if expr && name != nil {
 		funcDecl.Name, _ = p.scope.Declare(ExprDecl, name) // cannot fail
@@ -1012,6 +1014,7 @@ func (p *Parser) parseFunc(async, expr bool) (funcDecl *FuncDecl) {
 	p.allowDirectivePrologue = prevAllowDirectivePrologue
 
 	p.await, p.yield, p.retrn = prevAwait, prevYield, prevRetrn
+	p.assumeArrowFunc = prevAssumeArrowFunc
 	p.exitScope(parent)
 	return
 }
@@ -1027,6 +1030,9 @@ func (p *Parser) parseClassExpr() (classDecl *ClassDecl) {
 func (p *Parser) parseAnyClass(expr bool) (classDecl *ClassDecl) {
 	// assume we're at class
 	p.next()
+	prevAssumeArrowFunc := p.assumeArrowFunc
+	p.assumeArrowFunc = false // the class may be part of a parenthesized expression that could be an arrow function head
+	defer func() { p.assumeArrowFunc = prevAssumeArrowFunc }()
 	classDecl = &ClassDecl{}
 	if IsIdentifier(p.tt) || p.tt == YieldToken || p.tt == AwaitToken {
 		if !expr {
@@ -1633,6 +1639,9 @@ func (p *Parser) parseArrowFuncBody() (list []IStmt) {
 	// mark undeclared vars as arguments in `function f(a=b){var b}` where the b's are different vars
 	p.scope.MarkFuncArgs()
 
+	prevAssumeArrowFunc := p.assumeArrowFunc
+	p.assumeArrowFunc = false // the arrow function may be part of a parenthesized expression that could be an arrow function head
+	defer func() { p.assumeArrowFunc = prevAssumeArrowFunc }()
 	if p.tt == OpenBraceToken {
 		prevIn, prevRetrn := p.in, p.retrn
 		p.in, p.retrn = true, true
